@@ -95,6 +95,7 @@ def main(argv):
                 break
             rng = util.case_rng(prop, seed, 0, index)
             casedir = ctx.tmp()
+            t_case = time.monotonic()
             try:
                 res = P.run_case(ctx, rng, index, casedir)
             except monitor.ContractBroken:
@@ -128,7 +129,7 @@ def main(argv):
                         "hashseed": ctx.hashseed, "violation": v,
                         "replay": f"./check replay <this directory>"}
                 v["replay"] = ctx.keep(index, casedir, info)
-            emit({"type": "case", "index": index, "sig": res.get("sig"),
+            emit({"type": "case", "index": index, "sig": res.get("sig"), "wall_s": round(time.monotonic() - t_case, 2),
                   "nontrivial": bool(res.get("nontrivial")), "evals": res.get("evals", 1),
                   "sigs": res.get("sigs"),
                   "situations": res.get("situations", {}), "outcomes": res.get("outcomes", {}),
